@@ -122,6 +122,15 @@ def check_c02(run, tier, drive):
     out = os.path.join(vlib.scratch(), "c02")
     os.makedirs(out, exist_ok=True)
     vlib.run([drive, "encode", "-out", out, "-tier", tier, "-seed", str(vlib.seed())], timeout=6000)
+    # the lazily built 16-bit encode tables under other process histories (as in C01)
+    hist = [("decode-first", 3), ("mixed", 6)] if tier == "quick" else \
+           [("decode-first", 3), ("mixed", 6), ("decode-first", 1), ("mixed", 2), ("encode-first", 5), ("decode-first", 7), ("mixed", 12), ("encode-first", 13)]
+    with open(os.path.join(out, "c02.ndjson"), "a") as f:
+        for k, (h, procs) in enumerate(hist):
+            vlib.run([drive, "encode", "-out", out, "-tier", "quick", "-light", "-seed", str(vlib.seed() + 1 + k), "-history", h, "-name", "h.ndjson"],
+                     timeout=3000, env=dict(vlib.goenv(), GOMAXPROCS=str(procs)))
+            f.write(open(os.path.join(out, "h.ndjson")).read())
+    run.cov["process_histories"] = ["encode-first/P%d" % vlib.NCPU] + ["%s/P%d" % hp for hp in hist]
     rejects, lines = validate(run, "TraceColour/C02", os.path.join(out, "c02.ndjson"))
     run.cov["traces_validated_against_impl"] = len(lines)
     kinds = {}
